@@ -45,7 +45,9 @@ TOLERANCES = {
                              'exact equality for copy / index / constant '
                              'operators and for integer / bool ranges; NaN '
                              'and inf must sit at the same positions',
-    'input': 'bytes of every leaf array of x identical before / after',
+    'input': 'bytes of every leaf array of x identical before / after; '
+             'op(x) shares no memory with x (np.shares_memory) except for '
+             'the documented view-returning operators',
     'repeat': 'second out-of-place call equals the first exactly (pyfftw '
               'operators: within the in-place tolerance)',
     'arraylike': 'op(ndarray / nested list) equals op(element) within the '
@@ -93,11 +95,16 @@ def _case(draw, names=None, name=None):
         name = draw(zoo.weighted_entry_names(names))
     od = draw(zoo.entry_descs(name))
     dom = od.pop('dom')
+    # large tensors (BLAS regime): x AND out non-contiguous on purpose
+    large = name.startswith('large.')
+    orders = ['strided', 'strided', 'strided', 'F', 'C'] if large else \
+        ['C', 'C', 'C', 'F', 'strided']
     return {
         'op': od,
-        'x': draw(zoo.point_descs(dom)),
+        'x': draw(zoo.point_descs(dom, orders=orders if large else
+                                  ('C', 'C', 'F', 'strided'))),
         'xform': draw(st.sampled_from(['elem', 'elem', 'array', 'list'])),
-        'outorder': draw(st.sampled_from(['C', 'C', 'C', 'F', 'strided'])),
+        'outorder': draw(st.sampled_from(orders)),
         'sentinel': draw(st.sampled_from([7.25, -3.0, 1e6, 0.0])),
         'junk': draw(st.sampled_from(JUNK_X)),
         'badout': draw(st.sampled_from(BAD_OUT)),
@@ -392,6 +399,12 @@ def run_case(desc):
                         '{}: op(x) = {!r} not in {!r}'.format(
                             name, type(r), ran))
     check_x('oop')
+    # (1a) the result is a new element: modifying it must not change x
+    # (documented exception: operators that return views, zoo.VIEW_ALLOWED)
+    if name not in zoo.VIEW_ALLOWED and V is None and \
+            zoo.shares_memory(r, ran, x, dom):
+        raise Violation(sig('result-shares-memory'),
+                        '{}: op(x) shares memory with x'.format(name))
 
     # (1b) determinism / cached state
     try:
@@ -553,6 +566,11 @@ def run_case(desc):
         nontrivial = True
     if desc['x'].get('order', 'C') != 'C':
         strata.append('x-' + desc['x']['order'])
+    if desc['op']['opts'].get('large'):
+        strata.append('large')
+        if desc['x'].get('order') == 'strided' and not op.is_functional \
+                and outorder == 'strided':
+            strata.append('large-x-and-out-strided')
     if view_operand:
         strata.append('expr-operand-returns-view')
     return Outcome('ok', strata=strata, nontrivial=nontrivial,
@@ -566,7 +584,8 @@ def run_case(desc):
 NEVER_OK = {'func.MoreauEnvelope', 'func.InfimalConvolution',
             'func.FunctionalDefaultConvexConjugate',
             'fprox.IndicatorNuclearNormUnitBall'}
-REQUIRED_STRATA = ['inplace', 'functional', 'x-array', 'x-list', 'x-F',
+REQUIRED_STRATA = ['inplace', 'functional', 'large',
+                   'large-x-and-out-strided', 'x-array', 'x-list', 'x-F',
                    'x-strided', 'out-F', 'out-strided'] + \
     ['junk-' + k for k in JUNK_X] + ['badout-' + k for k in BAD_OUT] + \
     ['entry:' + n for n, e in zoo.ENTRIES.items()
